@@ -2,6 +2,8 @@ import Driver.IPCalc
 import Driver.Alloc
 import Driver.Range
 import Driver.Prefix
+import Driver.Dispatch
+import Driver.Plugins
 import Std.Data.HashMap
 open Drv
 
@@ -47,4 +49,7 @@ def main (args : List String) : IO UInt32 := do
   | ["alloc6"] | ["alloc4"] | ["alloc"] => run ⟨Alloc.St.none, Alloc.step⟩; return 0
   | ["range"] => run ⟨({} : Range.St), Range.step⟩; return 0
   | ["prefix"] => run ⟨({} : Prefix.St), Prefix.step⟩; return 0
+  | ["dispatch4"] => run ⟨(), fun _ op res => ((), Dispatch.step4 op res)⟩; return 0
+  | ["dispatch6"] => run ⟨(), fun _ op res => ((), Dispatch.step6 op res)⟩; return 0
+  | ["plugins"] => run ⟨(), fun _ op res => ((), Plugins.step op res)⟩; return 0
   | _ => IO.eprintln "usage: drv <engine> < trace"; return 2
